@@ -1,4 +1,5 @@
 import BoltonsVerif.C08.Proofs
+import BoltonsVerif.C08.Trace
 import BoltonsVerif.Generated.C08_Facts
 /-
 C08 — property theorems for the models of `remap` / `research` / `get_path`
@@ -401,6 +402,39 @@ example : ∃ v, gRoot (progCfg (.skipKind .tuple) [] .keyOld) 12 exT = some (.o
 example : gRoot (progCfg (.depthLimit 0) [] .dflt) 1 exT = some .typeError ∧
     ∃ m, ∀ m', m ≤ m' → gRemapIter (progCfg (.depthLimit 0) [] .dflt) m' exT = some .typeError :=
   ⟨rfl, custom_callbacks_loop_eq_rec _ 1 _ _ rfl⟩
+
+/-! ## the `trace` keyword (round 5)
+
+`trace` occurs in none of the models above: it only selects which events the loop PRINTS.  `Trace.lean`
+extends the generic machine by a log of printed lines (`gstepT`: the untraced step, plus the lines
+`gprints` derives from the state the iteration starts in). -/
+
+/-- `remap(..., trace=t)` returns what `remap(...)` returns, for every selection `t` of traced events,
+    ARBITRARY enter / visit / exit callbacks, every root and every number of loop iterations -/
+theorem trace_does_not_change_result (c : GCfg) (t : TraceSel) (m : Nat) (root : Val) :
+    (gRemapIterT c t m root).1 = gRemapIter c m root := by
+  simp only [gRemapIterT, gRemapIter, grunT_fst]
+
+/-- with tracing off (the default `()`, `False`, or only unknown event names) nothing is printed -/
+theorem trace_off_prints_nothing (c : GCfg) (m : Nat) (root : Val) :
+    (gRemapIterT c .off m root).2 = [] :=
+  grunT_off_snd c m _ []
+
+/-- hence the traced loop, too, returns exactly what the bottom-up recursion returns
+    (`custom_callbacks_loop_eq_rec` with any `trace`) -/
+theorem traced_loop_eq_rec (c : GCfg) (t : TraceSel) (n : Nat) (root : Val) (r : GRes)
+    (hr : gRoot c n root = some r) :
+    ∃ m, ∀ m', m ≤ m' → (gRemapIterT c t m' root).1 = some r := by
+  obtain ⟨m, hm⟩ := gRemap_eq_rec_aux c n root r hr
+  exact ⟨m, fun m' h => by rw [trace_does_not_change_result]; exact hm m' h⟩
+
+/-- non-vacuity: `{'a': [1, frozenset({None})], None: ()}` with `trace=True` prints 34 lines, with
+    `trace='exit'` 8 (four containers), with `trace='enter'` 16 - and the traced loop returns -/
+example : (gRemapIterT (dflt keepVisit) .all 40 exT).2.length = 34 ∧
+    (gRemapIterT (dflt keepVisit) ⟨false, false, true⟩ 40 exT).2.length = 8 ∧
+    (gRemapIterT (dflt keepVisit) ⟨true, false, false⟩ 40 exT).2.length = 16 ∧
+    (gRemapIterT (dflt keepVisit) .all 40 exT).1.isSome = true := by
+  decide +kernel
 
 /-- the generic model specialises to the main one: with `default_enter` / `default_exit` plugged in,
     the generic recursion (fuel > size) is the bottom-up rebuild `remapRec` of `remap_eq_rec` -/
